@@ -104,11 +104,10 @@ let handle kind c =
     let tok = read_token c in
     let procs = read_procs c in
     let won = List.length (List.filter (fun p -> p.p_kind = KSidecar && p.p_upload) procs) in
-    let stale = not (token_state_allows period now0 tok) |> not in
     (* model: the starters one after the other *)
     let sched = List.concat (List.init n (fun i -> let t = nat_of_int i in [Step t; Step t; Step t])) in
     let mw = int_of_nat (winners (trun period sched (tinit (nat_of_int n) now0 tok))) in
-    let tok_stale = (match tok with None -> false | Some _ -> stale) in
+    let tok_stale = (match tok with None -> false | Some _ -> token_state_allows period now0 tok) in
     if tok_stale then begin
       if won < 1 then diff "race-winners" ~model:">=1" ~impl:(string_of_int won)
     end else begin
@@ -120,6 +119,21 @@ let handle kind c =
     List.iter (fun p ->
         if p.p_kind = KSidecar && not (beq p.p_marker lit_1) then
           prop "no-recursion" ("sidecar with marker " ^ esc p.p_marker)) procs
+  | "tokrace" ->
+    let n = next_int c in
+    let tok = read_token c in
+    let won = next_int c in
+    let sched = List.concat (List.init n (fun i -> let t = nat_of_int i in [Step t; Step t; Step t])) in
+    let mw = int_of_nat (winners (trun period sched (tinit (nat_of_int n) now0 tok))) in
+    if token_state_allows period now0 tok && tok <> None then begin
+      (* stale token: the conceded race may give several winners; at least one *)
+      if won < 1 then diff "tokrace-winners" ~model:">=1" ~impl:(string_of_int won)
+    end else begin
+      check_eq "tokrace-winners" string_of_int mw won;
+      if won > 1 then
+        prop "token-once" (Printf.sprintf "%d of %d concurrent acquireUploadToken calls returned true (token %s)" won n
+                             (match tok with None -> "absent" | Some _ -> "fresh"))
+    end
   | k -> diff "unknown-case-kind" ~model:k ~impl:"-"
 
 let () = run_file Sys.argv.(1) handle
